@@ -13,7 +13,7 @@ PROPERTY = "C18"
 TAU_DB = 1.25
 META = {
     "bounds": {"quick": "white: symbolic psd, fs; fftnoise: spectra of N=2..9 symbolic complex bins with symbolic unit phasors; band_limited_noise: N in {4,5,8,9} with symbolic band edges and sample rate; shaping filter: 4 configurations (alpha in {0.5,1,2} at (100,0.01,10) and 1.5 at (2,1e-3,1)), for each the real constructor's coefficients are taken as exact rationals and the band [2*fmin_eff, fmax_eff/2] is covered by cells (50 per decade; the cell width is part of the tolerance: a cell's target interval is [f_b^-alpha*10^(-tau/10), f_a^-alpha*10^(tau/10)]) on each of which the solver decides EVERY frequency",
-               "thorough": "18 configurations (alpha in {0.01,0.25,0.5,1,1.5,2} x 3), 200 cells per decade"},
+               "thorough": "13 configurations (alpha in {0.01,0.25,0.5,1,1.5,2} x 2 band set-ups, plus alpha=1 over 6.6 decades), 100 cells per decade"},
     "outside": ["(alpha, fs, fmin, fmax) off the grid", "the two corner octaves (a cascade of first-order sections is 3*alpha/2 dB off at a corner by construction)", "numpy's ifft (the property is stated on the array handed to it)"],
     "stubs": ["np.fft.ifft -> captures its argument", "np.fft.fftfreq -> the documented grid k/(N*d)", "rng.random -> fresh symbols; cos/sin of the random phase -> a symbolic unit phasor"],
     "assumptions": ["reading of 'about 1 dB between its lower and upper corner': within %.2f dB on [2*fmin_eff, fmax_eff/2] (fixed before looking at what passes, DESIGN.md section 4 C18)" % TAU_DB],
@@ -288,8 +288,8 @@ def obligations(tier):
         grid = [(a, 100.0, 0.01, 10.0) for a in (0.5, 1.0, 2.0)] + [(1.5, 2.0, 1e-3, 1.0)]
         per = 50
     else:
-        grid = [(a, fs, fmin, fmax) for a in (0.01, 0.25, 0.5, 1.0, 1.5, 2.0) for (fs, fmin, fmax) in ((100.0, 0.01, 10.0), (2.0, 1e-3, 1.0), (1000.0, 1e-4, 400.0))]
-        per = 200
+        grid = [(a, fs, fmin, fmax) for a in (0.01, 0.25, 0.5, 1.0, 1.5, 2.0) for (fs, fmin, fmax) in ((100.0, 0.01, 10.0), (2.0, 1e-3, 1.0))] + [(1.0, 1000.0, 1e-4, 400.0)]
+        per = 100
     for (a, fs, fmin, fmax) in grid:
         d = config(a, fs, fmin, fmax)
         n = len(_cells(d, per))
